@@ -363,7 +363,7 @@ func init() {
 			Burst int `json:"burst"`
 			// FreshRounds (default 0 = off): before the ordinary phase, that many times: a FRESH Resolved is made from the shared
 			// root with the operation's options (validateDefaults …) and k goroutines, released together, at once make
-			// max(burst, 1) passes of Validate over all the instances on it, each verdict compared with the sequential one —
+			// 3 passes of Validate over all the instances on it, each verdict compared with the sequential one —
 			// the first concurrent calls on a Resolved that Resolve has just returned, many times per operation.
 			FreshRounds int `json:"freshRounds"`
 		}
@@ -479,7 +479,7 @@ func init() {
 				note()
 				break
 			}
-			passes := max(inf.Burst, 1)
+			const passes = 3
 			var fwg sync.WaitGroup
 			fstart := make(chan struct{})
 			for g := 0; g < k; g++ {
